@@ -174,6 +174,7 @@ type simTransport struct {
 	stepCtx context.Context    // the caller's context of the current step
 	cancel  context.CancelFunc // ends the step when it transmits without bound
 	runaway bool
+	limit   int        // transmissions after which the step is cut off as a runaway
 	extra   []byte     // UDP mode: a datagram the bridge sends right behind the reply
 	udp     bool       // driven by the UDP bridge: never blocks, a missing reply is simply not sent
 	mu      sync.Mutex // UDP mode: the bridge goroutine and the step runner
@@ -240,7 +241,7 @@ func (t *simTransport) Send(ctx context.Context, d []byte) ([]byte, error) {
 	if t.stepCtx != nil && !t.udp {
 		over = t.stepCtx.Err()
 	}
-	if t.n >= maxTransmissions {
+	if t.n >= t.limit {
 		t.runaway = true
 		if t.cancel != nil {
 			t.cancel()
@@ -852,6 +853,11 @@ func runStepM(st *scnState, step *scnStep, withMetrics bool) (res stepResult) {
 	t := st.t
 	t.mu.Lock()
 	t.script, t.events, t.n = step.Script, step.Events, 0
+	t.limit = maxTransmissions
+	if step.Op == "dcmisensorinfo" || step.Op == "sdr" {
+		// procedures that legitimately send hundreds of requests (up to 256 pages per entity, C16_page_loop_at_most_256_requests)
+		t.limit = 2500
+	}
 	t.prevStep = t.prev
 	t.sent, t.deliv, t.actions = nil, nil, nil
 	logFrom := len(st.b.Log)
